@@ -6,9 +6,13 @@ package sm3_test
 
 import (
 	"bytes"
+	"encoding/json"
 	"fmt"
 	"hash"
 	"io"
+	"os"
+	"path/filepath"
+	"syscall"
 	"testing"
 
 	"github.com/bilibili/smgo/sm3"
@@ -236,4 +240,60 @@ func TestVerif_C04_LongMessage(t *testing.T) {
 			vt.Fail(t, rec, "C04:sum:digest", "digest mismatch for a message of %d bytes (bit length %d)\n got %x\nwant %x", total, uint64(total)*8, got, want)
 		}
 	}
+}
+
+
+// Messages of 2^29 and more ZERO bytes (read-only anonymous pages) against digests computed once with OpenSSL (static vectors):
+// the bit length no longer fits in 32 bits.
+func TestVerif_C04_LongZeroVectors(t *testing.T) {
+	rec := stats.Get("C04", "long-zero-vectors")
+	rec.Rule("static third-party vectors (vectors/sm3_openssl_long_zero.json, openssl dgst -sm3 over N zero bytes, N = 2^29-1, 2^29, 2^29+65, 2^30+3): the zero bytes come from a read-only anonymous mapping and are written in 1 MiB..64 MiB chunks with a Sum at the half-way point; quick runs the two lengths around 2^29, thorough all four. Each case non-trivial (bit length at or above 2^32); distinct by length.")
+	rec.Exhaustive(true)
+	t.Cleanup(stats.FlushAll)
+	b, err := os.ReadFile(filepath.Join(os.Getenv("VERIF_DIR"), "vectors", "sm3_openssl_long_zero.json"))
+	if err != nil {
+		rec.Skipped("vectors/sm3_openssl_long_zero.json not readable: " + err.Error())
+		return
+	}
+	var f struct {
+		Vectors []struct {
+			ZeroBytes int    `json:"zero_bytes"`
+			Digest    string `json:"digest"`
+		}
+	}
+	if err := json.Unmarshal(b, &f); err != nil {
+		t.Fatal(err)
+	}
+	mem, err := syscall.Mmap(-1, 0, 64<<20, syscall.PROT_READ, syscall.MAP_ANON|syscall.MAP_PRIVATE)
+	if err != nil {
+		rec.Skipped("cannot map zero pages: " + err.Error())
+		return
+	}
+	defer syscall.Munmap(mem)
+	for i, v := range f.Vectors {
+		if !vt.Thorough() && i != 1 && i != 2 {
+			continue
+		}
+		h := sm3.New()
+		left := v.ZeroBytes
+		chunk := []int{1 << 20, 64 << 20, 3<<20 + 17}[i%3]
+		for left > 0 {
+			n := chunk
+			if n > left {
+				n = left
+			}
+			if wn, werr := h.Write(mem[:n]); wn != n || werr != nil {
+				vt.Fail(t, rec, "C04:write:return", "Write(%d) returned (%d,%v)", n, wn, werr)
+			}
+			left -= n
+			if left > 0 && left <= v.ZeroBytes/2 && left+n > v.ZeroBytes/2 {
+				h.Sum(nil)
+			}
+		}
+		rec.Enumerated(1, "long-zero")
+		if got := fmt.Sprintf("%x", h.Sum(nil)); got != v.Digest {
+			vt.Fail(t, rec, "C04:sum:digest", "digest of %d zero bytes (bit length %d) differs from OpenSSL\n got %s\nwant %s", v.ZeroBytes, uint64(v.ZeroBytes)*8, got, v.Digest)
+		}
+	}
+	rec.Sample("long-zero", map[string]interface{}{"lengths": "2^29-1, 2^29, 2^29+65, 2^30+3 zero bytes", "source": "openssl dgst -sm3"})
 }
